@@ -162,6 +162,15 @@ class Sim03(scenario.Sim):
                 old = self.ops.get("op")
                 if old is None or not old.alive or old.killed:
                     await self.start_operator("op")
+            elif kind == "cut":
+                # the watch streams of the resource are cut AT ONCE: events not yet delivered (delayed echoes) are lost;
+                # with "410" the event log is compacted first, so kopf re-lists instead of re-watching from its last version
+                if args and args[0] == "410":
+                    self.cluster.compact(self.kex)
+                for w in list(self.cluster.watches):
+                    if not w.closed and w.res.key == self.kex.key:
+                        w.close()
+                self.mark("op", op=["cut", *args])
             else:
                 self.apply_op([kind, *args])
         await self.sleep_until(float(sc.get("end", 60.0)))
